@@ -8,6 +8,7 @@ import Driver.Handlers.Similarity
 import Driver.Handlers.Match
 import Driver.Handlers.DateParse
 import Driver.Handlers.Decoder
+import Driver.Handlers.Diff
 import Driver.Handlers.Resolve
 import Driver.Handlers.Warnings
 import Driver.Handlers.Equal
@@ -19,7 +20,7 @@ import Driver.Handlers.Cache
 namespace Driver
 
 def handlers : List (String → List String → Option String) :=
-  [handleDates, handleSimilarity, handleMatch, handleDateParse, handleDecoder, handleResolve, handleWarnings, handleEqual, handleLiving, handleHtml, handleQuery, handleMergeGraph, handleCache]
+  [handleDates, handleSimilarity, handleMatch, handleDateParse, handleDecoder, handleDiff, handleResolve, handleWarnings, handleEqual, handleLiving, handleHtml, handleQuery, handleMergeGraph, handleCache]
 
 def respond (line : String) : String :=
   match line.splitOn " " with
